@@ -9,6 +9,7 @@ package main
 
 import (
 	"bufio"
+	"crypto/sha256"
 	"encoding/json"
 	"flag"
 	"fmt"
@@ -185,6 +186,27 @@ func main() {
 		bin += "-race"
 		args = append(args, "-race")
 	}
+	// Developer tooling only (seeded-change confirmation, never set by a registered command): build against a scratch
+	// copy of the repository instead of /repo and keep evidence/witness files of that run apart from the real ones.
+	outRoot := R
+	if alt := os.Getenv("VERIF_ALT_REPO"); alt != "" {
+		tag := fmt.Sprintf("%x", sha256.Sum256([]byte(alt)))[:10]
+		gm, err := os.ReadFile(filepath.Join(R, "go.mod"))
+		if err != nil {
+			fmt.Println("INCONCLUSIVE cannot read go.mod")
+			os.Exit(2)
+		}
+		mf := filepath.Join(R, ".build", "alt-"+tag+".mod")
+		os.MkdirAll(filepath.Dir(mf), 0o755)
+		os.WriteFile(mf, []byte(strings.Replace(string(gm), "=> /repo", "=> "+alt, 1)), 0o644)
+		if gs, err := os.ReadFile(filepath.Join(R, "go.sum")); err == nil {
+			os.WriteFile(strings.TrimSuffix(mf, ".mod")+".sum", gs, 0o644)
+		}
+		args = append(args, "-modfile="+mf)
+		bin += "-alt-" + tag
+		outRoot = filepath.Join(R, ".build", "alt", tag)
+		fmt.Printf("NOTE: building against %s (VERIF_ALT_REPO); evidence and witnesses under %s\n", alt, outRoot)
+	}
 	args = append(args, "-o", bin, "./cmd/vworker")
 	os.MkdirAll(filepath.Dir(bin), 0o755)
 	cmd := exec.Command("go", args...)
@@ -242,7 +264,7 @@ func main() {
 	so.Close()
 	se.Close()
 	if timedOut {
-		keep := filepath.Join(R, "witness", *prop)
+		keep := filepath.Join(outRoot, "witness", *prop)
 		os.MkdirAll(keep, 0o755)
 		os.WriteFile(filepath.Join(keep, "watchdog-stderr.txt"), []byte(tail(filepath.Join(runDir, "stderr.txt"), 200000)), 0o644)
 		fmt.Printf("INCONCLUSIVE property=%s wall-clock watchdog (%v) fired; goroutine dump in witness/%s/watchdog-stderr.txt\n", *prop, watchdog, *prop)
@@ -309,7 +331,7 @@ func main() {
 		}
 	}
 	sort.Strings(stale)
-	wdir := filepath.Join(R, "witness", *prop)
+	wdir := filepath.Join(outRoot, "witness", *prop)
 	for i, v := range unlisted {
 		os.MkdirAll(wdir, 0o755)
 		p := filepath.Join(wdir, fmt.Sprintf("%s-%d-%d.json", t, seed, i))
@@ -371,9 +393,9 @@ func main() {
 		if inconclusive != "" {
 			ev["inconclusive"] = inconclusive
 		}
-		os.MkdirAll(filepath.Join(R, "evidence"), 0o755)
+		os.MkdirAll(filepath.Join(outRoot, "evidence"), 0o755)
 		b, _ := json.MarshalIndent(ev, "", " ")
-		os.WriteFile(filepath.Join(R, "evidence", *prop+".json"), b, 0o644)
+		os.WriteFile(filepath.Join(outRoot, "evidence", *prop+".json"), b, 0o644)
 	}
 
 	fmt.Printf("SUMMARY property=%s tier=%s seed=%d evaluations=%d distinct_nontrivial=%d violations=%d known=%d stale_known=%d wall=%.1fs\n",
